@@ -166,14 +166,14 @@ pub fn run(args: &Args) -> i32 {
 
     // 1. all element sequences up to the depth bound, every piece length
     let depth = if thorough { 5 } else { 4 };
-    let k = 7u64;
+    let k = 8u64;
     let mut total = 0u64;
     let mut offs = vec![];
     for d in 0..=depth {
         offs.push(total);
         total += k.pow(d);
     }
-    rep.run("element-sequences", total, 120, true, &format!("all sequences of 0..={depth} elements over {{ts ch0, ts ch58 trailing, channel 59, marker, complete 244-byte scaler block with marker-looking payload, invalid word, 6-byte truncated scaler block}}; per stream: full state search over every piece length"), |idx, loc| {
+    rep.run("element-sequences", total, 120, true, &format!("all sequences of 0..={depth} elements over {{ts ch0, ts ch58 trailing, channel 59, marker, complete 244-byte scaler block with marker-looking payload, invalid word, 6-byte truncated scaler block, almost-a-scaler-header word}}; per stream: full state search over every piece length"), |idx, loc| {
         let d = offs.iter().rposition(|&o| o <= idx).unwrap();
         let mut x = idx - offs[d];
         let mut stream = Vec::new();
@@ -234,6 +234,27 @@ pub fn run(args: &Args) -> i32 {
         loc.bulk(256, nontrivial, "classified");
         if loc.want_sample() {
             loc.sample(json!({"low_bytes": hex(&[b0, b1, b2]), "top_bytes": "00..ff"}));
+        }
+    });
+
+    // 3b. every near-miss of the scaler block header, followed by enough bytes for a whole block
+    rep.run("scaler-header-variants", 65536 * 2, 60, true, "ts + word [0x3C, b1, b2, 0xFE] for all 65536 (b1, b2) and [b0, 0, 0, top] for all 65536 (b0, top) + 61 valid words + ts: whole parse against the reference (only the exact header may swallow a block)", |idx, loc| {
+        let (a, b) = ((idx & 0xFF) as u8, (idx >> 8 & 0xFF) as u8);
+        let word = if idx < 65536 { [0x3C, a, b, 0xFE] } else { [a, 0x00, 0x00, b] };
+        let mut stream = element(0, 0);
+        stream.extend(word);
+        for i in 0..61 {
+            stream.extend(element([0u64, 1, 3][i % 3], i));
+        }
+        let expected = ref_fifo_parse(&stream);
+        match real_parse(&stream) {
+            Err(p) => loc.violation(format!("panic:fifo:{}", panic_site(&p)), json!({"word": hex(&word), "panic": p})),
+            Ok(r) => {
+                loc.note(hash64(&stream), true, if r.1 == stream.len() { "all-consumed" } else { "stopped" });
+                if r != expected {
+                    loc.violation("fifo:whole-parse-differs-from-reference", json!({"word": hex(&word), "stream_len": stream.len(), "real": {"entries": r.0.len(), "consumed": r.1}, "reference": {"entries": expected.0.len(), "consumed": expected.1}}));
+                }
+            }
         }
     });
 
